@@ -61,8 +61,8 @@ static unsigned gen_wav(uint8_t* f, int layout, const uint8_t* fmt, unsigned dl,
   auto chunk = [&](const char* tag, unsigned len) { memcpy(f + p, tag, 4); vf_st32(f + p + 4, len); p += 8; };
   auto extra = [&]() { chunk("LIST", 2); p += 2; };
   if (layout == 1) extra();
-  unsigned fl = layout == 4 ? 16 : 18;
-  chunk("fmt ", fl); memcpy(f + p, fmt, fl); p += fl;
+  unsigned fl = layout == 4 ? 16 : layout == 5 ? 40 : 18;      // 5: WAVE_FORMAT_EXTENSIBLE-sized format chunk (22 further bytes, symbolic)
+  chunk("fmt ", fl); memcpy(f + p, fmt, fl < 18 ? fl : 18); p += fl;
   if (layout == 2) extra();
   chunk("data", dl); *dataOff = p; p += dl;
   if (layout == 3 || layout == 4) extra();
